@@ -448,8 +448,34 @@ unit({
             calls={'Read': {1: [(r'.*', T('Rd_ReadU32T', args=['obj']))]}, 'resize': T('vec_Animation_resize'), 'ReadAnimation': T('ArtFile_ReadAnimation_U', recv='none', args=['ref']),
                    'VerifyCountsMatchHeader': T('ArtFile_VerifyCountsMatchHeader_U', recv='none', args=['ref', None, None, None])},
             views=[(r'\(\*artFile\)\.animations', 'vec')]),
+        _fn('src/Sprite/ArtReader.cpp', 'ArtFile::VerifyCountsMatchHeader', 'ArtFile_VerifyCountsMatchHeader', cls='ArtFile', static=True,
+            calls={'CountFrames': N('ArtFile_CountFrames_U', args=['ref', 'ref', 'ref'])}),
+        _fn('src/Sprite/ArtReader.cpp', 'ArtFile::ReadImageMetadata', 'ArtFile_ReadImageMetadata', cls='ArtFile', static=True,
+            calls={'Read': {('uint32_t', 1): T('Reader_ReadSized_u32_vec_ImageMeta', args=['ref'])}, 'ValidateImageMetadata': T('ArtFile_ValidateImageMetadata_R')},
+            views=[(r'\(\*artFile\)\.imageMetas', 'vec'), (r'\(\*artFile\)\.palettes', 'vec')]),
         _fn('src/Sprite/ArtFile.cpp', 'ArtFile::VerifyImageIndexInBounds', 'ArtFile_VerifyImageIndexInBounds', cls='ArtFile'),
         _fn('src/Sprite/ArtFile.cpp', 'ArtFile::ValidateImageMetadata', 'ArtFile_ValidateImageMetadata', cls='ArtFile', rangefor={'imageMeta': 'ImageMeta'}),
+    ],
+})
+
+# --------------------------------------------------------------------------- U-SPRA (PRT animation records: ReadAnimation / WriteAnimation with the REAL Animation struct)
+unit({
+    'name': 'spra',
+    'includes': ['kr.h', 'wr.h'],
+    'typemap': {'std::uint32_t': 'uint32_t', 'Point16': 'Point16', 'Point32': 'Point32', 'Rect': 'Rect', 'LayerMetadata': 'LayerMetadata', 'Layer': 'Layer', 'Frame': 'Frame', 'Animation::Frame': 'Frame',
+                'UnknownContainer': 'UnknownContainer', 'Animation': 'Animation', 'std::vector<Layer>': 'vec_Layer', 'std::vector<Frame>': 'vec_Frame', 'std::vector<UnknownContainer>': 'vec_UnknownContainer',
+                'Stream::Writer': 'Wr', 'Stream::Reader': 'Rd'},
+    'structs': [STR_VIEW, ('src/Point.h', 'Point16'), ('src/Point.h', 'Point32'), ('src/Rect.h', 'Rect'), ('src/Sprite/Animation.h', 'LayerMetadata'), ('src/Sprite/Animation.h', 'Layer'), VIEW('vec_Layer', 'Layer'),
+                ('src/Sprite/Animation.h', 'Frame'), VIEW('vec_Frame', 'Frame'), ('src/Sprite/Animation.h', 'UnknownContainer'), VIEW('vec_UnknownContainer', 'UnknownContainer'), ('src/Sprite/Animation.h', 'Animation')],
+    'functions': [
+        _fn('src/Sprite/ArtReader.cpp', 'ArtFile::ReadAnimation', 'ArtFile_ReadAnimation', cls='ArtFile', static=True, ret_cxx='Animation',
+            calls={'Read': {1: [(r'animation\.unknown2?\s*$|frameCount', T('Rd_ReadU32T', args=['obj'])), (r'.*', T('Rd_Read', args=['obj']))], ('uint32_t', 1): T('Reader_ReadSized_u32_vec_UnknownContainer', args=['ref'])}, 'resize': T('vec_Frame_resize'),
+                   'ReadFrame': T('ArtFile_ReadFrame', recv='none', args=['ref'])},
+            views=[(r'animation\.frames', 'vec'), (r'animation\.unknownContainer', 'vec')]),
+        _fn('src/Sprite/ArtWriter.cpp', 'ArtFile::WriteAnimation', 'ArtFile_WriteAnimation', cls='ArtFile', static=True, rangefor={'frame': 'Frame'},
+            calls={'Write': {1: [(r'.*', T('Wr_Write', args=['objtmp']))], ('uint32_t', 1): T('Writer_WriteSized_u32_vec_UnknownContainer', args=['ref'])},
+                   'WriteFrame': T('ArtFile_WriteFrame', recv='none', args=['ref', 'ref'])},
+            views=[(r'\(\*animation\)\.frames', 'vec'), (r'\(\*animation\)\.unknownContainer', 'vec')]),
     ],
 })
 
